@@ -280,7 +280,7 @@ class Pgm:
         assert kind in ('sys', 'file', 'python', 'shell', 'ref')
         self.kind, self.head, self.args = kind, head, tuple(args)
         self.stdin, self.trans, self.parens, self.continuation = stdin, trans, parens, continuation
-        self.head_value = head_value  # shell: value parts of the command line (default: literal head)
+        self.head_value = head_value  # shell / sys: value parts of the command line / program name (default: literal head)
 
     def text(self) -> str:
         first = {'sys': '% ' + self.head, 'file': self.head, 'python': '-python',
@@ -323,7 +323,7 @@ def denote(p: Pgm, defs: Dict[str, Pgm]) -> Den:
         b = denote(defs[p.head], defs)
         d = Den(b.shell, list(b.argv), list(b.stdin), list(b.trans), list(b.gens))
     elif p.kind == 'sys':
-        d = Den(False, [[C(p.head)]], [], [], [])
+        d = Den(False, [p.head_value if p.head_value is not None else [C(p.head)]], [], [], [])
     elif p.kind == 'file':
         d = Den(False, [[HDS, C('/' + p.head)]], [], [], [])
     elif p.kind == 'python':
